@@ -61,6 +61,11 @@ def _cases(tier, seed):
                         tuple(((1, 1) if j % 2 == 0 else (0, 2)) for j in range(k))}:
                 for value in ('sym', 0.0):
                     cs.append({'scen': 'ttm_pad', 's': {'M': M, 'N': N, 'R': R, 'pad': [list(p) for p in pad], 'value': value, 'dtype': 'float64'}})
+    # fill values that single precision cannot represent, on double-precision operators (helper tensors must take the operator's dtype)
+    for M, N, R in [([2], [3], [1, 1]), ([2, 1], [1, 2], [1, 2, 1])]:
+        for value in (0.1, 1000000.1):
+            cs.append({'scen': 'ttm_pad', 's': {'M': M, 'N': N, 'R': R, 'pad': [[1, 2]] * len(N), 'value': value, 'dtype': 'float64'}})
+    cs.append({'scen': 'ttm_pad', 's': {'M': [2], 'N': [2], 'R': [1, 1], 'pad': [[1, 1]], 'value': 0.1, 'dtype': 'complex128'}})
     # ---- diag
     for N, R in [([3], [1, 1]), ([2, 3], [1, 2, 1]), ([2, 1, 2], [1, 2, 3, 1]), ([1, 1], [1, 2, 1])] + ([([2, 2, 2, 2], [1, 2, 2, 2, 1])] if th else []):
         for dr in ('embed', 'extract'):
